@@ -1,6 +1,7 @@
 package main
 
 import (
+	"fmt"
 	"go/ast"
 	"go/token"
 	"strconv"
@@ -39,6 +40,10 @@ func init() {
 		o.hasStmt(d, "Server", "startHealthCheck", "s.healthDone = done", "start_publishes_done")
 		o.hasStmt(d, "Server", "startHealthCheck", "defer close(done)", "start_loop_closes_done")
 		o.stmtBefore(d, "Server", "Close", "<-s.healthDone", "for _, t := range s.tokens", "close_waits_for_loop")
+		// timeout scope of the token pings: which context each Ping receives, where the contexts on its chain are
+		// created relative to the token loop, with which duration; what pingOne makes of the ping's error; which
+		// outcome healthCheck counts as a failed token
+		o.pingScope(d, "Server", "healthCheck")
 		fingerprint(d, "Server", "healthCheck")
 		fingerprint(d, "Server", "healthCheckLoop")
 		fingerprint(d, "Server", "Healthy")
@@ -417,4 +422,459 @@ func (o *out) lockEvents(dir, recv, name, mutex, coqName string) {
 		names = append(names, c20EventNames[c])
 	}
 	o.f("Definition %s : list Z := [%s].\n(* %s:%s.%s lock/ping/state events in execution order: %s *)\n", coqName, strings.Join(nums, "; "), dir, recv, name, strings.Join(names, " "))
+}
+
+// ---------------------------------------------------------------- timeout scope of the token pings (C20)
+//
+// pingScope follows the context that reaches Token.Ping back to context.Background().  It finds the token loop
+// (`for ... range <x>.tokens`) of the round function, the Ping call made from the loop body (directly or through
+// same-package methods, depth <= 3), and resolves the Ping's argument:
+//
+//	identifier bound by `c, cancel := context.WithTimeout(parent, dur)`  -> one chain element, then parent is resolved
+//	identifier bound by `c, cancel := context.WithCancel(parent)`        -> no element, parent is resolved
+//	a parameter of the function                                          -> the argument at the call site, in the caller
+//	context.Background() / context.TODO()                                -> end of the chain
+//
+// Each element is (site, duration in ns, live): site 1 = the creating statement is executed once per token (it is inside
+// the token loop, or in a function called from inside it), 2 = once per round (in the round function, outside the
+// loop); live = false when the cancel function is called (not deferred) before the Ping.  Anything else (a context kept
+// in a struct field, WithDeadline, a duration srcgen cannot translate) is a broken tie.  Emitted:
+//
+//	ping_ctx_chain (timeout_s interval_s n_tokens : Z) : list (Z * Z * bool)
+//	ping_one_ok (err_nonnil ctx_expired : bool) : bool      the return tree of the function that calls Ping
+//	hc_token_not_ok (ping_ok : bool) : bool                 path condition of `notOK = append(notOK, ...)` in the loop
+type scopeFrame struct {
+	p      *pkgInfo
+	fd     *ast.FuncDecl
+	call   *ast.CallExpr // the call made in this frame that leads to the Ping (the Ping call itself in the last frame)
+	inLoop bool          // the whole function is executed once per token
+}
+
+func isTokensRange(p *pkgInfo, rs *ast.RangeStmt) bool {
+	return strings.HasSuffix(printNode(p.fset, rs.X), ".tokens")
+}
+
+// pingPath finds, below node, a call of a method named Ping, directly or through same-package methods.
+func pingPath(dir string, p *pkgInfo, fd *ast.FuncDecl, node ast.Node, inLoop bool, depth int) ([]scopeFrame, int) {
+	var best []scopeFrame
+	n := 0
+	ast.Inspect(node, func(x ast.Node) bool {
+		ce, ok := x.(*ast.CallExpr)
+		if !ok {
+			return true
+		}
+		sel, ok := ce.Fun.(*ast.SelectorExpr)
+		if !ok {
+			return true
+		}
+		if sel.Sel.Name == "Ping" {
+			n++
+			if best == nil {
+				best = []scopeFrame{{p: p, fd: fd, call: ce, inLoop: inLoop}}
+			}
+			return true
+		}
+		if id, ok := sel.X.(*ast.Ident); ok && id.Name == recvName(fd) && depth < 3 {
+			if p2, fd2 := findFunc(dir, "Server", sel.Sel.Name); fd2 != nil && fd2.Body != nil {
+				sub, k := pingPath(dir, p2, fd2, fd2.Body, true, depth+1)
+				if k > 0 {
+					n += k
+					if best == nil {
+						best = append([]scopeFrame{{p: p, fd: fd, call: ce, inLoop: inLoop}}, sub...)
+					}
+				}
+			}
+		}
+		return true
+	})
+	return best, n
+}
+
+// bindingOf finds the statement `name, _ := <call>` (or `name := <call>`) in fd that lexically precedes pos.
+func bindingOf(fd *ast.FuncDecl, name string, pos token.Pos) (*ast.AssignStmt, *ast.CallExpr) {
+	var as *ast.AssignStmt
+	var call *ast.CallExpr
+	ast.Inspect(fd.Body, func(n ast.Node) bool {
+		a, ok := n.(*ast.AssignStmt)
+		if !ok || a.Pos() >= pos || len(a.Rhs) != 1 || len(a.Lhs) == 0 {
+			return true
+		}
+		if id, ok := a.Lhs[0].(*ast.Ident); ok && id.Name == name {
+			if ce, ok := a.Rhs[0].(*ast.CallExpr); ok {
+				as, call = a, ce // the last one before pos wins
+			} else {
+				as, call = a, nil
+			}
+		}
+		return true
+	})
+	return as, call
+}
+
+func paramIndex(fd *ast.FuncDecl, name string) int {
+	k := 0
+	for _, f := range fd.Type.Params.List {
+		for _, nm := range f.Names {
+			if nm.Name == name {
+				return k
+			}
+			k++
+		}
+		if len(f.Names) == 0 {
+			k++
+		}
+	}
+	return -1
+}
+
+// inlineHelper replaces a call of a same-package method without arguments whose body is a single return by the
+// returned expression (e.g. s.healthCheckInterval()).
+func inlineHelper(dir string, fd *ast.FuncDecl, e ast.Expr) ast.Expr {
+	ce, ok := e.(*ast.CallExpr)
+	if !ok || len(ce.Args) != 0 {
+		return e
+	}
+	sel, ok := ce.Fun.(*ast.SelectorExpr)
+	if !ok {
+		return e
+	}
+	if id, ok := sel.X.(*ast.Ident); !ok || id.Name != recvName(fd) {
+		return e
+	}
+	_, h := findFunc(dir, "Server", sel.Sel.Name)
+	if h == nil || h.Body == nil || len(h.Body.List) != 1 || recvName(h) != recvName(fd) {
+		return e
+	}
+	if rs, ok := h.Body.List[0].(*ast.ReturnStmt); ok && len(rs.Results) == 1 {
+		return rs.Results[0]
+	}
+	return e
+}
+
+var scopeDurLeaves = map[string]string{
+	"time.Duration(s.Config.Server.TokenCheckTimeout)":  "timeout_s",
+	"time.Duration(s.Config.Server.TokenCheckInterval)": "interval_s",
+	"s.Config.Server.TokenCheckTimeout":                 "timeout_s",
+	"s.Config.Server.TokenCheckInterval":                "interval_s",
+	"time.Duration(len(s.tokens))":                      "n_tokens",
+	"len(s.tokens)":                                     "n_tokens",
+}
+
+func (o *out) pingScope(dir, recv, round string) {
+	const chainName, okName, notOkName = "ping_ctx_chain", "ping_one_ok", "hc_token_not_ok"
+	p, fd := findFunc(dir, recv, round)
+	if fd == nil || fd.Body == nil {
+		for _, n := range []string{chainName, okName, notOkName} {
+			o.brokenDef(n, "function "+dir+":"+recv+"."+round+" not found")
+		}
+		return
+	}
+	var loop *ast.RangeStmt
+	ast.Inspect(fd.Body, func(n ast.Node) bool {
+		if rs, ok := n.(*ast.RangeStmt); ok && loop == nil && isTokensRange(p, rs) {
+			loop = rs
+		}
+		return loop == nil
+	})
+	if loop == nil {
+		for _, n := range []string{chainName, okName, notOkName} {
+			o.brokenDef(n, "no `for ... range s.tokens` loop in "+round)
+		}
+		return
+	}
+	frames, nping := pingPath(dir, p, fd, loop.Body, false, 0)
+	if nping != 1 || len(frames) == 0 {
+		for _, n := range []string{chainName, okName, notOkName} {
+			o.brokenDef(n, fmt.Sprintf("%d Ping call sites reachable from the token loop of %s (want exactly 1)", nping, round))
+		}
+		return
+	}
+	if _, outside := pingPath(dir, p, fd, fd.Body, false, 0); outside != nping {
+		o.brokenDef(chainName, "a token is also pinged outside the token loop of "+round)
+		return
+	}
+	// ---- the chain
+	type elem struct {
+		site  int
+		dur   string
+		live  bool
+		where string
+	}
+	var chain []elem
+	var trail []string
+	fail := ""
+	k := len(frames) - 1
+	ping := frames[k].call
+	if len(ping.Args) != 1 {
+		fail = "Ping is not called with exactly one argument"
+	}
+	var cur ast.Expr
+	if fail == "" {
+		cur = ping.Args[0]
+	}
+	usePos := ping.Pos()
+	for steps := 0; fail == "" && steps < 16; steps++ {
+		fr := frames[k]
+		txt := printNode(fr.p.fset, cur)
+		if txt == "context.Background()" || txt == "context.TODO()" {
+			trail = append(trail, txt)
+			break
+		}
+		id, ok := cur.(*ast.Ident)
+		if !ok {
+			fail = "context of unknown origin reaches Ping: " + txt
+			break
+		}
+		if pi := paramIndex(fr.fd, id.Name); pi >= 0 {
+			if as, _ := bindingOf(fr.fd, id.Name, usePos); as != nil {
+				fail = "parameter " + id.Name + " of " + fr.fd.Name.Name + " is reassigned"
+				break
+			}
+			if k == 0 {
+				fail = "context parameter " + id.Name + " of the round function " + fr.fd.Name.Name
+				break
+			}
+			k--
+			if pi >= len(frames[k].call.Args) {
+				fail = "call of " + fr.fd.Name.Name + " has too few arguments"
+				break
+			}
+			cur = frames[k].call.Args[pi]
+			usePos = frames[k].call.Pos()
+			trail = append(trail, "parameter "+id.Name+" of "+fr.fd.Name.Name)
+			continue
+		}
+		as, call := bindingOf(fr.fd, id.Name, usePos)
+		if as == nil || call == nil {
+			fail = "no binding of " + id.Name + " by a context constructor in " + fr.fd.Name.Name
+			break
+		}
+		// the creating statement must be executed unconditionally: directly in the function body or in the loop body
+		direct := false
+		for _, st := range fr.fd.Body.List {
+			direct = direct || st == ast.Stmt(as)
+		}
+		if k == 0 {
+			for _, st := range loop.Body.List {
+				direct = direct || st == ast.Stmt(as)
+			}
+		}
+		if !direct {
+			fail = "context " + id.Name + " is created conditionally (" + printNode(fr.p.fset, as) + " is nested in another statement of " + fr.fd.Name.Name + ")"
+			break
+		}
+		ctor := printNode(fr.p.fset, call.Fun)
+		site := 2
+		if fr.inLoop || (k == 0 && as.Pos() >= loop.Body.Pos() && as.End() <= loop.Body.End()) {
+			site = 1
+		}
+		// is the cancel function called (not deferred) between the creation and the use?
+		live := true
+		if len(as.Lhs) == 2 {
+			if cid, ok := as.Lhs[1].(*ast.Ident); ok && cid.Name != "_" {
+				ast.Inspect(fr.fd.Body, func(n ast.Node) bool {
+					if _, isDefer := n.(*ast.DeferStmt); isDefer {
+						return false
+					}
+					if ce, ok := n.(*ast.CallExpr); ok && ce.Pos() > as.End() && ce.Pos() < usePos {
+						if f, ok := ce.Fun.(*ast.Ident); ok && f.Name == cid.Name {
+							live = false
+						}
+					}
+					return true
+				})
+			}
+		}
+		where := map[int]string{1: "once per token", 2: "once per round, before/outside the token loop"}[site]
+		switch ctor {
+		case "context.WithTimeout":
+			if len(call.Args) != 2 {
+				fail = "context.WithTimeout with unexpected arguments"
+				break
+			}
+			t := o.newTr(fr.p, funcSpec{dir: dir, leaves: scopeDurLeaves})
+			if rn := recvName(fr.fd); rn != "s" && rn != "" {
+				l2 := map[string]string{}
+				for kk, v := range scopeDurLeaves {
+					l2[strings.ReplaceAll(kk, "s.", rn+".")] = v
+				}
+				t.leaves = l2
+			}
+			d := t.expr(inlineHelper(dir, fr.fd, call.Args[1]))
+			if t.err != nil {
+				fail = "duration of " + printNode(fr.p.fset, call) + ": " + t.err.Error()
+				break
+			}
+			chain = append(chain, elem{site, d, live, where})
+			trail = append(trail, fmt.Sprintf("%s := %s in %s (%s)", id.Name, printNode(fr.p.fset, call), fr.fd.Name.Name, where))
+			cur = call.Args[0]
+		case "context.WithCancel":
+			if !live {
+				chain = append(chain, elem{site, "0", false, where})
+			}
+			trail = append(trail, fmt.Sprintf("%s := %s in %s", id.Name, printNode(fr.p.fset, call), fr.fd.Name.Name))
+			cur = call.Args[0]
+		default:
+			fail = "context " + id.Name + " is made by " + ctor + ", which the scope model does not cover"
+		}
+		usePos = as.Pos()
+	}
+	if fail != "" {
+		o.brokenDef(chainName, fail)
+	} else {
+		var items []string
+		for _, e := range chain {
+			items = append(items, fmt.Sprintf("(%d, %s, %v)", e.site, e.dur, e.live))
+		}
+		o.f("Definition %s (timeout_s interval_s n_tokens : Z) : list (Z * Z * bool) :=\n  [%s].\n(* %s:%s.%s: Ping(%s) <- %s *)\n",
+			chainName, strings.Join(items, "; "), dir, recv, round, printNode(frames[len(frames)-1].p.fset, ping.Args[0]), strings.Join(trail, " <- "))
+	}
+	// ---- what the function that calls Ping returns
+	last := frames[len(frames)-1]
+	if len(frames) < 2 {
+		o.brokenDef(okName, "Ping is called directly in the token loop of "+round+" (no pingOne-like function to translate)")
+	} else {
+		ctxName := "ctx"
+		if id, ok := ping.Args[0].(*ast.Ident); ok {
+			ctxName = id.Name
+		}
+		errName := ""
+		ast.Inspect(last.fd.Body, func(n ast.Node) bool {
+			if as, ok := n.(*ast.AssignStmt); ok && len(as.Rhs) == 1 && as.Rhs[0] == ast.Expr(ping) && len(as.Lhs) == 1 {
+				if id, ok := as.Lhs[0].(*ast.Ident); ok {
+					errName = id.Name
+				}
+			}
+			return true
+		})
+		pingTxt := printNode(last.p.fset, ping)
+		leaves := map[string]string{
+			pingTxt + " != nil": "err_nonnil", pingTxt + " == nil": "(negb err_nonnil)",
+			ctxName + ".Err() != nil": "ctx_expired", ctxName + ".Err() == nil": "(negb ctx_expired)",
+		}
+		if errName != "" {
+			leaves[errName+" != nil"] = "err_nonnil"
+			leaves[errName+" == nil"] = "(negb err_nonnil)"
+		}
+		t := o.newTr(last.p, funcSpec{dir: dir, leaves: leaves})
+		body := retTree(t, last.fd.Body.List, "")
+		if t.err != nil {
+			o.brokenDef(okName, t.err.Error())
+		} else {
+			o.f("Definition %s (err_nonnil ctx_expired : bool) : bool :=\n  %s.\n(* return tree of %s:%s.%s, err = result of %s *)\n", okName, body, dir, recv, last.fd.Name.Name, pingTxt)
+		}
+	}
+	// ---- which ping outcome healthCheck counts as a failed token
+	{
+		leaves := map[string]string{printNode(p.fset, frames[0].call): "ping_ok"}
+		t := o.newTr(p, funcSpec{dir: dir, leaves: leaves})
+		var conds []string
+		found := 0
+		var walk func(list []ast.Stmt, path []string)
+		walk = func(list []ast.Stmt, path []string) {
+			for _, s := range list {
+				switch x := s.(type) {
+				case *ast.AssignStmt:
+					if len(x.Lhs) == 1 && len(x.Rhs) == 1 && printNode(p.fset, x.Lhs[0]) == "notOK" && strings.HasPrefix(printNode(p.fset, x.Rhs[0]), "append(notOK") {
+						found++
+						c := "true"
+						if len(path) > 0 {
+							c = "(" + strings.Join(path, " && ") + ")"
+						}
+						conds = append(conds, c)
+					}
+				case *ast.IfStmt:
+					if x.Init != nil {
+						walk([]ast.Stmt{x.Init}, path)
+					}
+					c := t.expr(x.Cond)
+					walk(x.Body.List, append(append([]string{}, path...), c))
+					switch e := x.Else.(type) {
+					case *ast.BlockStmt:
+						walk(e.List, append(append([]string{}, path...), "(negb "+c+")"))
+					case *ast.IfStmt:
+						walk([]ast.Stmt{e}, append(append([]string{}, path...), "(negb "+c+")"))
+					}
+				case *ast.BlockStmt:
+					walk(x.List, path)
+				}
+			}
+		}
+		// the result of the ping may be kept in a local first (`ok := s.pingOne(...)`)
+		for _, s := range loop.Body.List {
+			if as, ok := s.(*ast.AssignStmt); ok && len(as.Lhs) == 1 && len(as.Rhs) == 1 && as.Rhs[0] == ast.Expr(frames[0].call) {
+				if id, ok := as.Lhs[0].(*ast.Ident); ok {
+					leaves[id.Name] = "ping_ok"
+				}
+			}
+		}
+		// only the if statements that lead to the append are translated; others would be unmapped
+		var relevant []ast.Stmt
+		for _, s := range loop.Body.List {
+			if is, ok := s.(*ast.IfStmt); ok && !strings.Contains(printNode(p.fset, is), "append(notOK") {
+				continue
+			}
+			relevant = append(relevant, s)
+		}
+		walk(relevant, nil)
+		switch {
+		case found == 0:
+			o.brokenDef(notOkName, "no `notOK = append(notOK, ...)` in the token loop of "+round)
+		case t.err != nil:
+			o.brokenDef(notOkName, t.err.Error())
+		default:
+			o.f("Definition %s (ping_ok : bool) : bool :=\n  %s.\n(* %s:%s.%s: path condition of `notOK = append(notOK, ...)`, ping_ok = %s *)\n",
+				notOkName, strings.Join(conds, " || "), dir, recv, round, printNode(p.fset, frames[0].call))
+		}
+	}
+}
+
+func containsReturn(n ast.Node) bool {
+	found := false
+	ast.Inspect(n, func(x ast.Node) bool {
+		if _, ok := x.(*ast.FuncLit); ok {
+			return false
+		}
+		if _, ok := x.(*ast.ReturnStmt); ok {
+			found = true
+		}
+		return !found
+	})
+	return found
+}
+
+// retTree translates the return structure of a loop-free body: if statements that contain a return become
+// conditionals, everything else (logging, bookkeeping, the init statement of an if) is skipped.
+func retTree(t *tr, list []ast.Stmt, rest string) string {
+	for i, s := range list {
+		switch x := s.(type) {
+		case *ast.ReturnStmt:
+			if len(x.Results) != 1 {
+				return t.fail("return with %d results", len(x.Results))
+			}
+			return t.expr(x.Results[0])
+		case *ast.IfStmt:
+			if !containsReturn(x) {
+				continue
+			}
+			cont := retTree(t, list[i+1:], rest)
+			thenS := retTree(t, x.Body.List, cont)
+			elseS := cont
+			switch e := x.Else.(type) {
+			case *ast.BlockStmt:
+				elseS = retTree(t, e.List, cont)
+			case *ast.IfStmt:
+				elseS = retTree(t, []ast.Stmt{e}, cont)
+			}
+			return "(if " + t.expr(x.Cond) + " then " + thenS + " else " + elseS + ")"
+		case *ast.ForStmt, *ast.RangeStmt, *ast.SwitchStmt, *ast.SelectStmt, *ast.TypeSwitchStmt:
+			if containsReturn(x) {
+				return t.fail("return inside a loop/switch/select")
+			}
+		}
+	}
+	if rest == "" {
+		return t.fail("fallthrough without a return")
+	}
+	return rest
 }
